@@ -77,7 +77,7 @@ def selftest():
     assert not s.flags.c_contiguous and s.base is not None and s.strides == (8 * (3 * 7 + 5) * 2, 24)
     ai = np.rint(a * 100)
     for v in PRECISION:
-        src = np.abs(ai) if v == 'uint16' else ai
+        src = np.abs(ai) % 200 if v == 'uint8' else np.abs(ai) if v in ('uint16', 'uint32') else ai
         b = gen.represent(src, v)
         assert b.dtype == np.dtype(v) and np.array_equal(b.astype(float), src)
     try:
@@ -515,7 +515,8 @@ def run_case(case):
             if sd is not None and isinstance(s2.get('segm'), np.ndarray) and s2['segm'].max() < 250:
                 s2['segm'] = s2['segm'].astype(sd)
                 case.note(f'axis2_label_dtype:{sd}')
-            if 'use_mask' in o2 and not o2['use_mask'] and rng.random() < 0.2 and isinstance(s2.get('mask'), np.ndarray):
+            if 'use_mask' in o2 and not o2['use_mask'] and rng.random() < 0.2 \
+                    and ep.name not in ('statistics', 'isophote') and isinstance(s2.get('mask'), np.ndarray):
                 s2['mask'] = np.zeros(s2['mask'].shape, bool)
                 o2['use_mask'] = True
                 s2['_allfalse_mask'] = s2['mask']
